@@ -55,6 +55,39 @@ CHECKS = {
  'C34': ('exploration', 'complete product of callers x resources x visibilities x owners x grants x actions vs independent decision table',
          'The full product of 97 callers (role lists over Admin/User/Guest, user ids, IsSystem, no auth) x resource names (SOP, LongTermMemory, ordinary) x visibilities x owners x 64 role-grant maps x 16 user-grant maps x 5 actions (17.9M tuples; 1.09G in thorough) is evaluated on CheckPolicy, EnforcePolicy, CanPerformAction, Authorize and ResolveRBACMap against a decision table written from the statement; over- and under-permit and UI/enforcement disagreement are separate signatures.',
          'Unset visibility "" and grants under the empty user id are reported but not judged; blueprints with custom evaluators (tools/httpserver) are outside the anchors.', '6/C34', 'SEQX', True),
+ 'C12': ('fault_enumeration', 'exhaustive store-creation programs x every single L2 / file fault position; recreate matrix',
+         'Programs NewBtree(options) + 0-2 adds (optionally with a second store) ended by Commit, Rollback or one injected transient failure at EVERY L2 cache call index and EVERY file operation index between Begin and the return of Commit; all 240 ordered pairs of different option sets for remove-then-recreate; 876 create/remove/rollback histories of 1-3 rounds. Observed cold through GetStores, IsStoreExists, OpenBtree, Count, scan, storelist.txt and a walk of the folder: an uncommitted store must be absent everywhere and creatable again; a recreated store is empty with the new options and no old file left.',
+         'Concurrent creation of the same name is not part of this check (sequential + single-fault only); replicated layouts not covered.', '6/C12', 'FAULTX', True),
+ 'C14': ('exploration', 'exhaustive call sequences to length 5 (6) per transaction mode vs lifecycle model; byte-level disk comparison for read-only modes',
+         'Every sequence up to length 5 (thorough 6) over {Begin, Commit, Rollback, Phase1Commit, Phase2Commit, Close, OpenBtree, Add, Update, Remove, Find+GetCurrentValue} in ForWriting, ForReading and NoCheck on stores with known content; a set-valued lifecycle model predicts which calls may succeed; persisted content is read cold (before, or the acknowledged writes applied exactly once with Count = items); for ForReading/NoCheck every file outside translogs/ is compared byte by byte with the template in flight and after the end.',
+         'One key per operation, one transaction per case, fault-free.', '6/C14', 'SEQX', True),
+ 'C15': ('exploration', 'stateless model checking on a virtual clock: deviation-bounded DFS + every scheduling point of one thread as a permanent stall point',
+         'Two writers contending on the same key / on two stores in opposite order / splitting the same leaf, with commit budgets of 5 s and 1 min on the virtual clock: every schedule with at most 1 deviation, and additionally for EVERY scheduling point k of thread 0 the execution where thread 0 stalls forever at k holding whatever it holds. No deadlock or livelock may occur, every live Commit must return within maxTime + 1 virtual second, and when all transactions ended by themselves a later transaction on the same keys must commit once maxTime has elapsed.',
+         'Virtual time advances only through sop.Sleep / backoff; caller context deadlines are not varied; in-memory L2.', '6/C15', 'SCHED', True),
+ 'C28': ('exploration', 'stateless model checking at shardedMap-primitive granularity with a TTL clock thread and full shards; lock-table model at every call return',
+         'Two or three owners running 1-3 of {Lock, DualLock, IsLocked, IsLockedTTL, Unlock, foreign Unlock} over keys a,b (same order, opposite order, an unrelated key in the same shard) plus a clock thread that lets the TTL elapse at any position, for shard capacities 1000, 2 and 1 with pre-filled shards; every schedule with at most 2 deviations where each load/store/loadOrStore/compareAndSwap/compareAndDelete of the real cache is a scheduling point. At every call return: at most one owner holds a key unexpired (granted true, not released, TTL counted from the issue of the call), and a sole holder still owns its record in the service.',
+         'ONLY the in-memory lock service: the Redis adapter (adapters/redis/locker.go) is not exercised because no Redis server or miniredis is available offline.', '6/C28', 'SCHED', True),
+ 'C35': ('exploration', 'exhaustive session operation sequences to depth 4 (5) on the real SessionStore with a virtual clock + exhaustive token mutation classes',
+         'In-package harness (overlay-injected test file in tools/httpserver, time.Now replaced by a virtual clock): every sequence of length <= 4 (5) over {CreateSession, CreateToken, Refresh(any issued refresh token), RevokeToken(any token), ValidateToken, clock += ttl-1s / ttl+1s / refreshTTL+1s, RotateSecret}; after each sequence every issued access token is validated against a session-table model. Forged tokens: every single-character change of every part, part swaps, re-signing with 7 other secrets, claim edits, alg none/HS384/HS512/RS256, every truncation, empty/extra parts.',
+         'HTTP handlers and cookies not covered; the instant now == exp is undecided.', '6/C35', 'SEQX', True),
+ 'C13': ('exploration', 'exhaustive generated names/descriptions/custom data from a token set containing the metadata field names x option combinations x commit histories',
+         'Every string of <= 2 tokens (3 in thorough) from {count, "count", timestamp, :, ,, }, \\, ", a, space, e-acute} placed as store name, Description, CustomData key/value, MapKeyIndexSpecification and CELexpression, x 27 three-commit histories (positive/zero/negative count deltas incl. the first-item path) x warm/cleared L2, plus 60 option combinations; after every commit storeinfo.txt is parsed as JSON directly, read through a brand-new StoreRepository over an empty cache and reopened: every field except Count (= model) and Timestamp must equal the created configuration.',
+         'Schema/KeyFields/ValueFields inferred at first add are only required to stay stable; names with path separators not covered.', '6/C13', 'SEQX', True),
+ 'C19': ('exploration', 'exhaustive op sequences x transaction batchings x value placements x slot lengths vs in-memory model, cold and fresh-process read-back',
+         'Sequences over {add, upsert, update, remove, get} x 3 keys x {small, 5 KB, empty} values (length 1-2 full alphabet, length 3-4 reduced alphabets; see evidence rule) applied to persisted stores in every split into 1-3 transactions incl. a rolled-back middle one, for {node, segment, active, global} value placement x slot length {2,4} (+ one duplicate-key configuration), from an empty-ish and a 5-key pre-state with inner nodes; every step result, the ordered dump and Count are compared warm, with cold caches and from a fresh process.',
+         'Depth and alphabets bounded as stated in the evidence; orphan blobs are not visible to this oracle (C11).', '6/C19', 'SEQX', True),
+ 'C30': ('exploration', 'exhaustive warm-up pair x pair x triple enumeration over JSON field values; cross-instance store scans',
+         'Field values {missing, null, false, true, 1, 2, 10, 1.5, "1", "10", "a"} for 1-2 fields under ascending, descending, 2-field index specifications and the default field-wise order: for EVERY ordered warm-up pair (the first comparison of a fresh comparer) every ordered pair and triple is compared: history independence, reflexive/antisymmetric/transitive, and real stores built by one instance are scanned and searched by a second fresh instance for every 3-subset x insertion order x lookup order.',
+         'Fresh JsonDBMapKey instances stand in for OS processes; nested/array field values not covered.', '6/C30', 'SEQX', True),
+ 'C31': ('exploration', 'exhaustive streaming-store programs (factored product) vs model; full (key, chunk) scan after every program',
+         'Every 0-3-value size sequence over {1,100,511,512,513,4096,70000} (+1 MB thorough) as one-step programs, every program structure of depth <= 3 (4) over {Add, Update, Upsert, Remove} x 2 keys on reduced size alphabets, and all two-step programs with the full alphabet at one step, on an in-memory backend and on real infs transactions (commit per step, re-read in a new transaction): decoding must yield exactly the last written sequence then EOF (loop bounded at 4x), and the complete set of (key, chunkIndex) items must equal the model.',
+         'The full size x depth product is factored as stated in the evidence rule.', '6/C31', 'SEQX', True),
+ 'C32': ('exploration', 'exhaustive corpora x transaction splits x queries vs independent BM25',
+         'Corpora of <= 3 distinct documents of <= 3 tokens over {ab, abc, Uni-with-diacritics, a stop word} (+ zed in thorough), every split of the indexing into 1-3 transactions, every query of <= 2 tokens (repeated term, stop word only, unknown term); results compared with an independent BM25 (k1=1.2, b=0.75, idf=ln((N-n+0.5)/(n+0.5)+1)) over the tokenizer output: exact result set, each document once, scores within 1e-9, non-increasing order; one-document-per-transaction cases are searched again from a fresh process.',
+         'The index B-trees use the hard-coded slot length 5000 (single node); quick has an internal 12-minute budget and reports exhaustive:false if it is hit on a loaded machine.', '6/C32', 'SEQX', True),
+ 'C38': ('exploration', 'full matrix value type x placement x read path x ending x later reader',
+         'Reference-typed values ([]byte, map, []int, *struct, struct with slice; string as control) and a struct key with slice/map, read through GetCurrentValue/GetCurrentItem/NoLock variants/scans/GetCurrentKey under 7 placements, modified in place, then Rollback / Commit without write-back / Commit with an unrelated write / ForReading / NoCheck; four later readers (same transaction, next transaction warm, after cache reset, fresh process) must all read the committed value (3500 cells, 14000 comparisons; 7000 cells thorough).',
+         'Single-level trees, slot length <= 4.', '6/C38', 'SEQX', True),
 }
 NA_REASON = 'check not built yet in this session; no claim is made (see DESIGN.md section 6 for the plan)'
 
